@@ -55,6 +55,12 @@ func SignJWT(keyName, alg, kid string, claims map[string]interface{}, extraHeade
 		m.Write([]byte(input))
 		return input + "." + b64(m.Sum(nil))
 	}
+	// an attacker signs with whatever algorithm the key he holds supports
+	isRSAKey := strings.HasPrefix(keyName, "rsa")
+	isRSAAlg := strings.HasPrefix(alg, "RS") || strings.HasPrefix(alg, "PS")
+	if isRSAKey != isRSAAlg || (!isRSAKey && alg != AlgFor(keyName)) {
+		alg = AlgFor(keyName)
+	}
 	opts := (&jose.SignerOptions{}).WithType("JWT")
 	if kid != "" {
 		opts = opts.WithHeader("kid", kid)
